@@ -137,6 +137,35 @@ for r in run_from_entries(st, ents, 'R2'):
             concl += [gs == s.v, gd == vd, z3.Implies(vd == 0, gv.load(('Yes', 0), 'u64', r.st).v == vk.fields[('Yes', 0)].v)]
     ck.require(ex, 'R2_prepared_keeps_votes', r.pc, None, z3.And(concl), wit, lambda m, w: 'votes-lost')
 
+ck.declare('R5_resent_vote_does_not_displace_a_later_one', 'Begin(a,[p0,p1]) Vote(a,s0,v0) Vote(a,s0,v0) Vote(a,s1,v1) Phase(a -> Prepared), s0 != s1 (record_vote logs a vote before it rejects a repeat)',
+           'the recovered prepared transaction still carries a vote of shard s1 with the logged kind (and one of shard s0)')
+st = ex.new_state()
+a = U('a')
+v0, v0d = vote_kind('v0', st)
+v1, v1d = vote_kind('v1', st)
+parts = [U('p0'), U('p1')]
+s0, s1 = U('s0'), U('s1')
+st.assume(s0.v != s1.v)
+ents = [E('TxBegin', a, Seq('usize', list(parts))), E('PrepareVote', a, s0, v0), E('PrepareVote', a, s0, v0), E('PrepareVote', a, s1, v1),
+        E('PhaseChange', a, Enum('TxPhase', PH['Preparing'], {}), Enum('TxPhase', PH['Prepared'], {}))]
+for r in run_from_entries(st, ents, 'R5'):
+    wit = lambda m: {'shape': 'R5', 'a': mval(m, a.v), 'votes': [mval(m, v0d), mval(m, v1d)]}
+    if r.status != 'return':
+        if r.status == 'panic':
+            ck.require(ex, 'R5_resent_vote_does_not_displace_a_later_one', r.pc, None, z3.BoolVal(False), wit, lambda m, w: 'r5-panic')
+        continue
+    L = lists(r)
+    good = len(L['prepared_txs']) == 1
+    concl = [z3.BoolVal(good)]
+    if good:
+        t = L['prepared_txs'][0]
+        vs = t.load(FR('votes'), None, r.st).items(r.st)
+        has = lambda s_, vd: z3.Or([z3.And(got.load(0, 'usize', r.st).v == s_.v,
+                                           (got.load(1, 'PrepareVoteKind', r.st).disc if not isinstance(got.load(1, 'PrepareVoteKind', r.st).disc, int) else z3.BitVecVal(got.load(1, 'PrepareVoteKind', r.st).disc, 64)) == vd)
+                                    for got in vs] + [z3.BoolVal(False)])
+        concl += [has(s0, v0d), has(s1, v1d)]
+    ck.require(ex, 'R5_resent_vote_does_not_displace_a_later_one', r.pc, None, z3.And(concl), wit, lambda m, w: 'later-vote-displaced')
+
 ck.declare('R3_preparing_forgotten', 'Begin(a) Vote(a,s0,v0)', 'a transaction still collecting votes appears in no recovered class and leaves no orphaned lock entry')
 st = ex.new_state()
 a = U('a')
